@@ -86,6 +86,14 @@ struct Data {
     /// documents over fixed-width tokens: several new words per document, many equal document frequencies
     tie_texts: Array1<String>,
     nclass: usize,
+    /// more than 10 000 rows (a parallel path gated on the number of samples would be taken)
+    huge: Array2<f64>,
+    /// 12 features: `Pca::params(2)` takes the iterated (LOBPCG) branch, `dim >= 5 * num`
+    wide: Array2<f64>,
+    /// lattice rows with every feature column present twice (exact score ties between features), many rows
+    dup: Array2<f64>,
+    dup_y: Array1<usize>,
+    dup_w: Array1<f32>,
 }
 
 fn normalish(r: &mut Rng) -> f64 {
@@ -207,7 +215,39 @@ fn make_data(seed: u64, thorough: bool) -> Data {
             })
             .collect(),
     );
-    Data { blobs, small, lat, lat_y, lat_w, counts, rx, ry, ry2, rb, rc, q, qlat, texts, tie_texts, nclass }
+    let n_huge = if thorough { 40000 } else { 16384 };
+    let mut huge = Array2::zeros((n_huge, 3));
+    for i in 0..n_huge {
+        let c = &centres[r.below(k)];
+        for j in 0..3 {
+            huge[[i, j]] = c[j] + normalish(&mut r);
+        }
+    }
+    let n_wide = 200 + r.below(100);
+    let mut wide = Array2::zeros((n_wide, 12));
+    for i in 0..n_wide {
+        let a = normalish(&mut r);
+        let b = normalish(&mut r);
+        for j in 0..12 {
+            wide[[i, j]] = a * (j as f64 + 1.0) * 0.3 + b * ((j % 3) as f64 - 1.0) + normalish(&mut r) * 0.4;
+        }
+    }
+    let n_dup = if thorough { 4000 } else { 1500 };
+    let mut dup = Array2::zeros((n_dup, 6));
+    let mut dup_y = Array1::zeros(n_dup);
+    let mut dup_w = Array1::ones(n_dup);
+    for i in 0..n_dup {
+        for j in 0..3 {
+            let v = r.range(-3, 3) as f64;
+            dup[[i, j]] = v;
+            // the copy sits at another position: features j and 5-j are equal columns
+            dup[[i, 5 - j]] = v;
+        }
+        let s = dup[[i, 0]] + dup[[i, 1]] * 2.0 - dup[[i, 2]];
+        dup_y[i] = ((s.abs() as usize) + r.below(2)) % 3;
+        dup_w[i] = *r.pick(&[1.0f32, 0.3, 0.7, 0.1, 2.0]);
+    }
+    Data { blobs, small, lat, lat_y, lat_w, counts, rx, ry, ry2, rb, rc, q, qlat, texts, tie_texts, nclass, huge, wide, dup, dup_y, dup_w }
 }
 
 // ------------------------------------------------------------------------------------------------
@@ -608,6 +648,7 @@ fn child_main(spec: &str) -> ! {
     let thorough = it.next() == Some("thorough");
     let items = battery();
     let mut out = String::new();
+    out.push_str(&format!("#cores\t{}\t-\n", std::thread::available_parallelism().map(|n| n.get()).unwrap_or(0)));
     for ds in data_seeds(seed, thorough) {
         let d = make_data(ds, thorough);
         for item in &items {
@@ -623,12 +664,56 @@ fn child_main(spec: &str) -> ! {
     std::process::exit(0)
 }
 
+/// the CPUs this process may run on (`Cpus_allowed_list` of /proc/self/status), empty when unknown
+fn allowed_cpus() -> Vec<usize> {
+    let mut out = vec![];
+    if let Ok(st) = std::fs::read_to_string("/proc/self/status") {
+        for line in st.lines() {
+            if let Some(rest) = line.strip_prefix("Cpus_allowed_list:") {
+                for part in rest.trim().split(',') {
+                    let mut it = part.split('-');
+                    if let (Some(a), b) = (it.next().and_then(|x| x.trim().parse::<usize>().ok()), it.next().and_then(|x| x.trim().parse::<usize>().ok())) {
+                        for c in a..=b.unwrap_or(a) {
+                            out.push(c);
+                        }
+                    }
+                }
+            }
+        }
+    }
+    out
+}
+
+/// CPU set of child `i`: children 0, 3, 6 … are pinned to ONE cpu, children 1, 4, 7 … to three, the
+/// others inherit the parent's set.  `std::thread::available_parallelism()` / `num_cpus` follow the
+/// affinity mask, so code that chunks its work by the core count (not by rayon's pool) sees 1, 3 and
+/// all cores.  `None` when `taskset` or the cpu list is not available.
+fn child_cpu_set(i: usize) -> Option<String> {
+    let cpus = allowed_cpus();
+    if cpus.len() < 4 || !std::path::Path::new("/usr/bin/taskset").exists() {
+        return None;
+    }
+    match i % 3 {
+        0 => Some(format!("{}", cpus[i % cpus.len()])),
+        1 => Some(format!("{},{},{}", cpus[0], cpus[1], cpus[2])),
+        _ => None,
+    }
+}
+
 fn spawn_children(seed: u64, thorough: bool, start: usize, n: usize) -> Vec<std::process::Child> {
     let exe = std::env::current_exe().expect("current_exe");
     let tmp = std::env::temp_dir().join(format!("c20_child_{}", std::process::id()));
     (start..start + n)
         .map(|i| {
-            std::process::Command::new(&exe)
+            let mut cmd = match child_cpu_set(i) {
+                Some(set) => {
+                    let mut c = std::process::Command::new("/usr/bin/taskset");
+                    c.arg("-c").arg(set).arg(&exe);
+                    c
+                }
+                None => std::process::Command::new(&exe),
+            };
+            cmd
                 .args(["C20", if thorough { "thorough" } else { "quick" }, &seed.to_string(), tmp.to_str().unwrap()])
                 .env("VERIF_C20_CHILD", format!("{}:{}", seed, if thorough { "thorough" } else { "quick" }))
                 .env("VERIF_C20_CHILD_NO", i.to_string())
@@ -654,14 +739,15 @@ fn collect_child(c: std::process::Child) -> Digests {
     m
 }
 
-fn first_diff(a: &[(String, String)], b: &[(String, String)]) -> Option<String> {
-    if a.len() != b.len() {
-        return Some(format!("sections {} vs {}", a.len(), b.len()));
-    }
+/// first learned quantity that differs: (its name, description)
+fn first_diff(a: &[(String, String)], b: &[(String, String)]) -> Option<(String, String)> {
     for (x, y) in a.iter().zip(b.iter()) {
         if x != y {
-            return Some(format!("{}: {} vs {}", x.0, x.1, y.1));
+            return Some((x.0.clone(), format!("{}: {} vs {}", x.0, x.1, y.1)));
         }
+    }
+    if a.len() != b.len() {
+        return Some(("section_count".to_string(), format!("sections {} vs {}", a.len(), b.len())));
     }
     None
 }
@@ -678,6 +764,11 @@ fn estimator_runs(em: &mut Em, seed: u64) {
             child_digests.push(collect_child(c));
         }
         launched += batch;
+    }
+    // how many cores each child saw (1 / 3 / all when the affinity could be restricted)
+    let child_cores: Vec<String> = child_digests.iter().map(|c| c.get("#cores").and_then(|v| v.first()).map(|x| x.0.clone()).unwrap_or("?".to_string())).collect();
+    for c in &child_cores {
+        em.count(&format!("children:cores={}", if c == "1" { "one" } else if c == "3" { "three" } else { "inherited" }));
     }
     let items = battery();
     let pools_all = [1usize, 2, 3, 4, 8, 16];
@@ -704,7 +795,11 @@ fn estimator_runs(em: &mut Em, seed: u64) {
             }
             // coverage floor: learned quantities actually compared (sections that are neither a panic nor an error)
             if wanted {
-                em.count_n(&format!("est_sections:{}", item.name), base.iter().filter(|x| x.0 != "panic" && !x.0.ends_with("error")).count() as u64);
+                let good = base.iter().filter(|x| x.0 != "panic" && !x.0.ends_with("error")).count() as u64;
+                em.count_n(&format!("est_sections:{}", item.name), good);
+                // the same in units of comparisons actually made (sections x (repeats + pools + children)):
+                // large enough for the floor formula of `check` to notice a partial loss
+                em.count_n(&format!("est_compared:{}", item.name), good * (repeats + pools_all.len() + child_digests.len()) as u64);
             }
             em.case(op, |ctx| {
                 // a panic / fit error is not a determinism failure (it must merely be the same on every run);
@@ -714,25 +809,25 @@ fn estimator_runs(em: &mut Em, seed: u64) {
                 }
                 for r in 0..repeats {
                     let again = run_item_safe(item, &d);
-                    if let Some(df) = first_diff(&base, &again) {
-                        ctx.fail("repeat_in_process", &class, format!("run {} differs from the first run: {}", r + 2, df));
+                    if let Some((sname, df)) = first_diff(&base, &again) {
+                        ctx.fail("repeat_in_process", &format!("{}:{}", class, sname), format!("run {} differs from the first run: {}", r + 2, df));
                         break;
                     }
                 }
                 for &t in pools {
                     let pool = rayon::ThreadPoolBuilder::new().num_threads(t).build().expect("pool");
                     let res = pool.install(|| run_item_safe(item, &d));
-                    if let Some(df) = first_diff(&base, &res) {
-                        ctx.fail("thread_pool", &class, format!("pool of {} threads differs from the default pool: {}", t, df));
+                    if let Some((sname, df)) = first_diff(&base, &res) {
+                        ctx.fail("thread_pool", &format!("{}:{}", class, sname), format!("pool of {} threads differs from the default pool: {}", t, df));
                         break;
                     }
                 }
                 for (i, c) in children.iter().enumerate() {
                     match c {
-                        None => ctx.fail("fresh_process", &class, format!("child process {} produced no result", i)),
+                        None => ctx.fail("fresh_process", &format!("{}:no_result", class), format!("child process {} produced no result", i)),
                         Some(cd) => {
-                            if let Some(df) = first_diff(&base, cd) {
-                                ctx.fail("fresh_process", &class, format!("fresh process {} differs: {}", i, df));
+                            if let Some((sname, df)) = first_diff(&base, cd) {
+                                ctx.fail("fresh_process", &format!("{}:{}", class, sname), format!("fresh process {} ({} cores visible) differs: {}", i, child_cores[i], df));
                                 break;
                             }
                         }
@@ -747,16 +842,54 @@ fn estimator_runs(em: &mut Em, seed: u64) {
 // ------------------------------------------------------------------------------------------------
 // correspondence: disjoint-write parallel loops (k-means updaters)
 
-fn parfor_cases(em: &mut Em, rng: &mut Rng) {
+/// run one of the three real updaters on lattice data in the scalar type `F`, under the metric `D`
+fn run_updater<F: linfa::Float, D: linfa_nn::distance::Distance<F>>(dist: &D, which: &str, threads: usize, cents: &[Vec<i64>], obs: &[Vec<i64>], d: usize) -> (Vec<usize>, Vec<i64>) {
     use linfa_clustering::verif_hooks_c20 as hk;
-    use linfa_nn::distance::L2Dist;
+    let (k, n) = (cents.len(), obs.len());
+    let c = Array2::from_shape_fn((k, d), |(i, j)| F::cast(cents[i][j] as f64));
+    let o = Array2::from_shape_fn((n, d), |(i, j)| F::cast(obs[i][j] as f64));
+    let pool = rayon::ThreadPoolBuilder::new().num_threads(threads).build().expect("pool");
+    pool.install(|| {
+        // sentinels: cells the loop fails to write stay visible
+        let mut m = Array1::from_elem(n, usize::MAX);
+        let mut ds = Array1::from_elem(n, F::cast(-1.0));
+        match which {
+            "memb" => hk::update_cluster_memberships(dist, &c, &o, &mut m),
+            "dist" => hk::update_min_dists(dist, &c, &o, &mut ds),
+            _ => hk::update_memberships_and_dists(dist, &c, &o, &mut m, &mut ds),
+        }
+        (m.to_vec(), ds.iter().map(|x| x.to_f64().unwrap() as i64).collect())
+    })
+}
+
+fn run_updater_dyn(scalar: &str, metric: &str, which: &str, threads: usize, cents: &[Vec<i64>], obs: &[Vec<i64>], d: usize) -> (Vec<usize>, Vec<i64>) {
+    use linfa_nn::distance::{L1Dist, L2Dist};
+    match (scalar, metric) {
+        ("f64", "l2") => run_updater::<f64, _>(&L2Dist, which, threads, cents, obs, d),
+        ("f64", _) => run_updater::<f64, _>(&L1Dist, which, threads, cents, obs, d),
+        (_, "l2") => run_updater::<f32, _>(&L2Dist, which, threads, cents, obs, d),
+        _ => run_updater::<f32, _>(&L1Dist, which, threads, cents, obs, d),
+    }
+}
+
+fn lattice_dist(metric: &str, a: &[i64], b: &[i64]) -> i64 {
+    if metric == "l2" {
+        a.iter().zip(b.iter()).map(|(x, y)| (x - y) * (x - y)).sum()
+    } else {
+        a.iter().zip(b.iter()).map(|(x, y)| (x - y).abs()).sum()
+    }
+}
+
+fn parfor_cases(em: &mut Em, rng: &mut Rng) {
     let n_cases = if em.thorough() { 600 } else { 120 };
     for ci in 0..n_cases {
-        // sizes on both sides of the point where ndarray/rayon start splitting
+        // sizes on both sides of the point where ndarray/rayon start splitting; two cases of the quick
+        // tier (ten of the thorough one) have more than 10 000 rows
         let n = match ci % 4 {
             0 => rng.below(6),
             1 => 1 + rng.below(40),
             2 => 100 + rng.below(400),
+            _ if ci % 60 == 3 => 10_001 + rng.below(2000),
             _ => 1000 + rng.below(if em.thorough() { 9000 } else { 2000 }),
         };
         let d = 1 + rng.below(3);
@@ -770,15 +903,40 @@ fn parfor_cases(em: &mut Em, rng: &mut Rng) {
             cents[a] = cents[b].clone();
         }
         let threads = *rng.pick(&[1usize, 2, 3, 4, 8, 16]);
-        let which = *rng.pick(&["memb", "dist", "both"]);
+        let metric = *rng.pick(&["l2", "l2", "l1"]);
+        let scalar = *rng.pick(&["f64", "f64", "f32"]);
+        // below the task level: the model executes an interleaving of compute / write events
+        let events = n <= 500 && rng.chance(1, 3);
+        let which = if events { "both" } else { *rng.pick(&["memb", "dist", "both"]) };
         // the schedule the MODEL executes: a random permutation of the tasks (rayon's real schedule is
         // whatever the pool does; the theorem says it cannot matter)
         let mut sched: Vec<usize> = (0..n).collect();
         rng.shuffle(&mut sched);
-        // long lines: describe obs by a generator seed when large
+        if events {
+            // computes in the order of one permutation, each write at a random later position:
+            // every task computes before it writes, otherwise the events interleave freely
+            let mut evs: Vec<usize> = vec![];
+            let mut pending: Vec<usize> = vec![];
+            for &t in &sched {
+                evs.push(2 * t);
+                pending.push(t);
+                while !pending.is_empty() && rng.coin() {
+                    let j = rng.below(pending.len());
+                    evs.push(2 * pending.swap_remove(j) + 1);
+                }
+            }
+            rng.shuffle(&mut pending);
+            for t in pending {
+                evs.push(2 * t + 1);
+            }
+            sched = evs;
+        }
         let op = format!(
-            "parfor which={} threads={} n={} d={} k={} cents={} obs={} sched={}",
+            "parfor which={} metric={} mode={} scalar={} threads={} n={} d={} k={} cents={} obs={} sched={}",
             which,
+            metric,
+            if events { "events" } else { "tasks" },
+            scalar,
             threads,
             n,
             d,
@@ -788,31 +946,18 @@ fn parfor_cases(em: &mut Em, rng: &mut Rng) {
             list(sched.iter(), |x| x.to_string())
         );
         em.count(&format!("parfor:threads={}", threads));
-        em.count(&format!("parfor:n={}", if n < 100 { "small" } else if n < 1000 { "mid" } else { "large" }));
-        let class = format!("which={}", which);
+        em.count(&format!("parfor:n={}", if n < 100 { "small" } else if n < 1000 { "mid" } else if n <= 10_000 { "large" } else { "over_10000" }));
+        em.count(&format!("parfor:metric={}", metric));
+        em.count(&format!("parfor:scalar={}", scalar));
+        em.count(if events { "parfor:mode=events" } else { "parfor:mode=tasks" });
+        let class = format!("which={}:{}:{}", which, metric, scalar);
         em.case_valid(op, &class, |ctx| {
-            let c = Array2::from_shape_fn((k, d), |(i, j)| cents[i][j] as f64);
-            let o = Array2::from_shape_fn((n, d), |(i, j)| obs[i][j] as f64);
-            let run = |threads: usize| -> (Vec<usize>, Vec<f64>) {
-                let pool = rayon::ThreadPoolBuilder::new().num_threads(threads).build().expect("pool");
-                pool.install(|| {
-                    // sentinels: cells the loop fails to write stay visible
-                    let mut m = Array1::from_elem(n, usize::MAX);
-                    let mut ds = Array1::from_elem(n, -1.0f64);
-                    match which {
-                        "memb" => hk::update_cluster_memberships(&L2Dist, &c, &o, &mut m),
-                        "dist" => hk::update_min_dists(&L2Dist, &c, &o, &mut ds),
-                        _ => hk::update_memberships_and_dists(&L2Dist, &c, &o, &mut m, &mut ds),
-                    }
-                    (m.to_vec(), ds.to_vec())
-                })
-            };
-            let (m, ds) = run(threads);
+            let (m, ds) = run_updater_dyn(scalar, metric, which, threads, &cents, &obs, d);
             // oracle: first-principles nearest centroid per row + schedule independence across pools
             for i in 0..n {
                 let mut best = (0usize, i64::MAX);
                 for (ci, cc) in cents.iter().enumerate() {
-                    let dd: i64 = cc.iter().zip(obs[i].iter()).map(|(a, b)| (a - b) * (a - b)).sum();
+                    let dd = lattice_dist(metric, cc, &obs[i]);
                     if dd < best.1 {
                         best = (ci, dd);
                     }
@@ -821,21 +966,271 @@ fn parfor_cases(em: &mut Em, rng: &mut Rng) {
                     ctx.require(m[i] == best.0, "disjoint_write_result", &class, || format!("row {} membership {} expected {}", i, m[i], best.0));
                 }
                 if which != "memb" {
-                    ctx.require(ds[i] == best.1 as f64, "disjoint_write_result", &class, || format!("row {} dist {} expected {}", i, ds[i], best.1));
+                    ctx.require(ds[i] == best.1, "disjoint_write_result", &class, || format!("row {} dist {} expected {}", i, ds[i], best.1));
                 }
             }
             for t in [1usize, 2, 3, 4, 8, 16] {
                 if t == threads {
                     continue;
                 }
-                let (m2, ds2) = run(t);
-                ctx.require(m2 == m && ds2.iter().zip(ds.iter()).all(|(a, b)| a.to_bits() == b.to_bits()), "schedule_independent", &class, || format!("pool {} vs pool {} differ", t, threads));
+                let (m2, ds2) = run_updater_dyn(scalar, metric, which, t, &cents, &obs, d);
+                ctx.require(m2 == m && ds2 == ds, "schedule_independent", &class, || format!("pool {} vs pool {} differ", t, threads));
             }
-            let total: f64 = Array1::from_vec(ds.clone()).sum();
+            let total: i64 = ds.iter().sum();
             let mstr = if which == "dist" { "-".to_string() } else { list(m.iter(), |x| x.to_string()) };
-            let dstr = if which == "memb" { "-".to_string() } else { list(ds.iter(), |x| format!("{}", *x as i64)) };
-            let sum = if which == "memb" { "-".to_string() } else { format!("{}", total as i64) };
+            let dstr = if which == "memb" { "-".to_string() } else { list(ds.iter(), |x| x.to_string()) };
+            let sum = if which == "memb" { "-".to_string() } else { total.to_string() };
             format!("ok m={} d={} sum={}", mstr, dstr, sum)
+        });
+    }
+}
+
+/// correspondence: the reduction after the join as it runs inside the real fits.
+/// `form=fit_with`: `KMeansValidParams::fit_with(None, ·)` with precomputed centroids on lattice data:
+/// `inertia() * n` is `dists.sum()` of the assignment to the given centroids, `cluster_count()` the
+/// histogram of the memberships.  `form=fit`: the data are symmetric pairs around well-separated
+/// centroids, so one iteration of `fit` leaves the centroids where they are (m_k-means update
+/// `(c + sum) / (count + 1)`, exact) and `inertia() * n` is the `dists.sum()` that ends the restart.
+fn fitsum_cases(em: &mut Em, rng: &mut Rng) {
+    use linfa_clustering::{IncrKMeansError, KMeans, KMeansInit};
+    use linfa_nn::distance::{L1Dist, L2Dist};
+    use rand_xoshiro::rand_core::SeedableRng;
+    let n_cases = if em.thorough() { 300 } else { 60 };
+    for ci in 0..n_cases {
+        let form = if ci % 3 == 2 { "fit" } else { "fit_with" };
+        let d = 1 + rng.below(3);
+        let k = 1 + rng.below(4);
+        let metric = *rng.pick(&["l2", "l2", "l1"]);
+        let scalar = *rng.pick(&["f64", "f64", "f32"]);
+        let threads = *rng.pick(&[1usize, 2, 3, 4, 8, 16]);
+        let big = ci % 10 == 1;
+        let (cents, obs): (Vec<Vec<i64>>, Vec<Vec<i64>>) = if form == "fit_with" {
+            let n = if scalar == "f32" {
+                if big { 16384 } else { *rng.pick(&[1usize, 2, 64, 256, 1024, 4096]) }
+            } else if big {
+                10_001 + rng.below(3000)
+            } else {
+                *rng.pick(&[1usize, 2, 7, 64, 300, 1024, 2500])
+            };
+            let cents = (0..k).map(|_| (0..d).map(|_| rng.range(-6, 6)).collect()).collect();
+            (cents, (0..n).map(|_| (0..d).map(|_| rng.range(-6, 6)).collect()).collect())
+        } else {
+            // centroids 32 apart on the first axis, offsets within +-3: every row is nearest to its own centroid
+            let cents: Vec<Vec<i64>> = (0..k).map(|c| (0..d).map(|j| if j == 0 { 32 * c as i64 - 40 } else { rng.range(-8, 8) }).collect()).collect();
+            let pairs = if scalar == "f32" {
+                if big { 8192 } else { 1usize << rng.below(9) }
+            } else if big {
+                5001 + rng.below(1000)
+            } else {
+                1 + rng.below(300)
+            };
+            let mut obs = vec![];
+            for _ in 0..pairs {
+                let c = rng.below(k);
+                let off: Vec<i64> = (0..d).map(|_| rng.range(-3, 3)).collect();
+                obs.push((0..d).map(|j| cents[c][j] + off[j]).collect());
+                obs.push((0..d).map(|j| cents[c][j] - off[j]).collect());
+            }
+            rng.shuffle(&mut obs);
+            (cents, obs)
+        };
+        let n = obs.len();
+        let mut sched: Vec<usize> = (0..n).collect();
+        rng.shuffle(&mut sched);
+        let op = format!(
+            "fitsum form={} metric={} scalar={} threads={} n={} d={} k={} cents={} obs={} sched={}",
+            form,
+            metric,
+            scalar,
+            threads,
+            n,
+            d,
+            k,
+            list2(cents.iter().map(|r| r.iter()), |x| x.to_string()),
+            list2(obs.iter().map(|r| r.iter()), |x| x.to_string()),
+            list(sched.iter(), |x| x.to_string())
+        );
+        em.count(&format!("fitsum:form={}", form));
+        em.count(&format!("fitsum:n={}", if n > 10_000 { "over_10000" } else { "upto_10000" }));
+        em.count(&format!("fitsum:scalar={}", scalar));
+        // first principles: sum of the distances to the nearest given centroid, rows per centroid
+        let mut want = 0i64;
+        let mut cnt = vec![0i64; k];
+        for o in &obs {
+            let mut best = (0usize, i64::MAX);
+            for (ci, cc) in cents.iter().enumerate() {
+                let dd = lattice_dist(metric, cc, o);
+                if dd < best.1 {
+                    best = (ci, dd);
+                }
+            }
+            want += best.1;
+            cnt[best.0] += 1;
+        }
+        // f32: inertia = S / n is rounded to 24 bits; S is recovered only when it survives that
+        let exact = scalar == "f64" || (want < (1 << 22) && n.is_power_of_two());
+        em.count(if exact { "fitsum:sum_compared" } else { "fitsum:sum_not_recoverable_f32" });
+        let class = format!("fitsum:{}:{}:{}", form, metric, scalar);
+        em.case_valid(op, &class, |ctx| {
+            // (cluster counts, inertia * n, centroids) of one real fit under a pool
+            macro_rules! real {
+                ($F:ty, $dist:expr, $threads:expr) => {{
+                    let c = Array2::from_shape_fn((k, d), |(i, j)| cents[i][j] as $F);
+                    let o = Array2::from_shape_fn((n, d), |(i, j)| obs[i][j] as $F);
+                    let ds = DatasetBase::from(o);
+                    let rg = rand_xoshiro::Xoshiro256Plus::seed_from_u64(1);
+                    let p = KMeans::params_with(k, rg, $dist).init_method(KMeansInit::Precomputed(c)).n_runs(1).max_n_iterations(1).tolerance(1e-2);
+                    let pool = rayon::ThreadPoolBuilder::new().num_threads($threads).build().expect("pool");
+                    pool.install(|| {
+                        let m = if form == "fit_with" {
+                            match p.fit_with(None, &ds) {
+                                Ok(m) => Some(m),
+                                Err(IncrKMeansError::NotConverged(m)) => Some(m),
+                                Err(_) => None,
+                            }
+                        } else {
+                            p.fit(&ds).ok()
+                        };
+                        m.map(|m| {
+                            let total = (m.inertia() as f64) * n as f64;
+                            (
+                                m.cluster_count().iter().map(|x| *x as i64).collect::<Vec<i64>>(),
+                                total,
+                                m.centroids().iter().map(|x| *x as f64).collect::<Vec<f64>>(),
+                            )
+                        })
+                    })
+                }};
+            }
+            let run = |t: usize| match (scalar, metric) {
+                ("f64", "l2") => real!(f64, L2Dist, t),
+                ("f64", _) => real!(f64, L1Dist, t),
+                (_, "l2") => real!(f32, L2Dist, t),
+                _ => real!(f32, L1Dist, t),
+            };
+            let r = match run(threads) {
+                Some(r) => r,
+                None => {
+                    ctx.fail("no_error", &class, "fit with precomputed centroids on lattice data failed".to_string());
+                    return "err".to_string();
+                }
+            };
+            for t in [1usize, 4, 16] {
+                if t != threads {
+                    let r2 = run(t);
+                    ctx.require(r2.as_ref().map(|x| (x.0.clone(), x.1.to_bits(), x.2.iter().map(|v| v.to_bits()).collect::<Vec<u64>>())) == Some((r.0.clone(), r.1.to_bits(), r.2.iter().map(|v| v.to_bits()).collect::<Vec<u64>>())), "schedule_independent", &class, || format!("pool {} vs pool {}: inertia / counts / centroids differ", t, threads));
+                }
+            }
+            let got = r.1.round() as i64;
+            if exact {
+                ctx.require(got == want, "reduction_after_join", &class, || format!("inertia * n = {} ({}), sum of nearest distances {}", r.1, got, want));
+            }
+            ctx.require(r.0 == cnt, "reduction_after_join", &class, || format!("cluster counts {:?}, rows nearest to each centroid {:?}", r.0, cnt));
+            if form == "fit" {
+                // the generator's promise (fixed point of the centroid update); if it failed the case says nothing
+                let fixed = r.2.iter().zip(cents.iter().flatten()).all(|(a, b)| *a == *b as f64);
+                ctx.require(fixed, "generator_fixed_point", &class, || "centroids moved: the symmetric data are not a fixed point".to_string());
+                // `fit` counts the memberships of the best run
+            }
+            format!("ok count={} sum={}", list(r.0.iter(), |x| x.to_string()), if exact { got } else { want })
+        });
+    }
+}
+
+/// correspondence: ONE parameter object fitted on data sets A, B, A, … one after another, compared
+/// with the model's `fitSession` over the table of first fits (row 0: fresh objects with the same
+/// seed, row 1: fresh objects with another seed — the results do depend on the generator).
+fn fitseq_cases(em: &mut Em, rng: &mut Rng) {
+    use rand_xoshiro::rand_core::SeedableRng;
+    use rand_xoshiro::Xoshiro256Plus;
+    let n_cases = if em.thorough() { 60 } else { 15 };
+    for ci in 0..n_cases {
+        let est = ["kmeans_pp", "kmeans_random", "gmm", "gaussian_projection", "sparse_projection"][ci % 5];
+        let seeds = [rng.next(), rng.next()];
+        let dseed = rng.next() % 100000;
+        let nd = 2 + rng.below(2);
+        let seq: Vec<usize> = (0..3 + rng.below(3)).map(|i| if i == 0 { 0 } else { rng.below(nd) }).collect();
+        let mut r = Rng::new(dseed);
+        let datas: Vec<Array2<f64>> = (0..nd).map(|j| Array2::from_shape_fn((150 + 30 * j, 3), |_| (r.unit() - 0.5) * (6.0 + j as f64))).collect();
+        // digest of one fit of the parameter object `p` on data set `j`; an error is a result too
+        fn dg(bits: Vec<u64>) -> u64 {
+            let bytes: Vec<u8> = bits.iter().flat_map(|b| b.to_le_bytes()).collect();
+            fnv(&bytes) >> 12
+        }
+        let fit_all = |seed: u64, order: &[usize], one_object: bool| -> Vec<u64> {
+            use linfa_clustering::{GaussianMixtureModel, KMeans, KMeansInit};
+            use linfa_reduction::random_projection::{GaussianRandomProjection, SparseRandomProjection};
+            let g = Xoshiro256Plus::seed_from_u64(seed);
+            let bits = |a: &Array2<f64>| a.iter().map(|v| v.to_bits()).collect::<Vec<u64>>();
+            macro_rules! session {
+                ($mk:expr, $p:ident, $x:ident, $body:expr) => {{
+                    let mut $p = $mk;
+                    let mut out: Vec<u64> = vec![];
+                    for &j in order {
+                        if !one_object {
+                            $p = $mk;
+                        }
+                        let $x = &datas[j];
+                        out.push($body);
+                    }
+                    out
+                }};
+            }
+            match est {
+                "kmeans_pp" | "kmeans_random" => session!(
+                    KMeans::params_with_rng(3, g.clone()).init_method(if est == "kmeans_pp" { KMeansInit::KMeansPlusPlus } else { KMeansInit::Random }).n_runs(2).max_n_iterations(10),
+                    p,
+                    x,
+                    match p.fit(&DatasetBase::from(x.clone())) {
+                        Ok(m) => dg(bits(m.centroids())),
+                        Err(_) => 1,
+                    }
+                ),
+                "gmm" => session!(
+                    GaussianMixtureModel::params_with_rng(2, g.clone()).max_n_iterations(10).n_runs(1),
+                    p,
+                    x,
+                    match p.fit(&DatasetBase::from(x.clone())) {
+                        Ok(m) => dg(bits(m.means())),
+                        Err(_) => 1,
+                    }
+                ),
+                "gaussian_projection" => session!(
+                    GaussianRandomProjection::<f64>::params_with_rng(g.clone()).target_dim(2),
+                    p,
+                    x,
+                    match p.fit(&DatasetBase::from(x.clone())) {
+                        Ok(m) => dg(bits(&m.transform(x))),
+                        Err(_) => 1,
+                    }
+                ),
+                _ => session!(
+                    SparseRandomProjection::<f64>::params_with_rng(g.clone()).target_dim(2),
+                    p,
+                    x,
+                    match p.fit(&DatasetBase::from(x.clone())) {
+                        Ok(m) => dg(bits(&m.transform(x))),
+                        Err(_) => 1,
+                    }
+                ),
+            }
+        };
+        // the table is part of the request: built from FRESH parameter objects, one per fit
+        let all: Vec<usize> = (0..nd).collect();
+        let table: Vec<Vec<u64>> = seeds.iter().map(|s| fit_all(*s, &all, false)).collect();
+        let ok_fits = table[0].iter().filter(|x| **x != 1).count();
+        em.count_n(&format!("fitseq_fitted:{}", est), seq.iter().filter(|j| table[0][**j] != 1).count() as u64);
+        if table[0] != table[1] {
+            em.count("fitseq:result_depends_on_seed");
+        }
+        let _ = ok_fits;
+        let op = format!("fitseq est={} seed={} data={} table={} seq={}", est, seeds[0], dseed, list2(table.iter().map(|r| r.iter()), |x| x.to_string()), list(seq.iter(), |x| x.to_string()));
+        let class = format!("est={}", est);
+        em.case_valid(op, &class, |ctx| {
+            let got = fit_all(seeds[0], &seq, true);
+            let want: Vec<u64> = seq.iter().map(|j| table[0][*j]).collect();
+            ctx.require(got == want, "rng_cloned_per_fit", &class, || format!("one parameter object fitted on the data sets {:?} returns {:?}, first fits with fresh objects {:?}", seq, got, want));
+            format!("ok {}", list(got.iter(), |x| x.to_string()))
         });
     }
 }
@@ -987,8 +1382,12 @@ fn labels_cases(em: &mut Em, rng: &mut Rng) {
         let n2 = rng.below(8);
         let a: Vec<Vec<usize>> = (0..n).map(|_| (0..t).map(|_| rng.below(7)).collect()).collect();
         let b: Vec<usize> = (0..n2).map(|_| rng.below(9)).collect();
+        // ground truth for the first target column (confusion matrix: linfa itself sorts the combined labels);
+        // few distinct values so that the two-class reversal is met
+        let span = *rng.pick(&[1usize, 2, 2, 3, 9]);
+        let g: Vec<usize> = (0..n).map(|i| if rng.coin() { a[i][0] % span } else { rng.below(span) }).collect();
         em.count(&format!("labels:targets={}", t));
-        let op = format!("labels t={} a={} b={}", t, list2(a.iter().map(|r| r.iter()), |x| x.to_string()), list(b.iter(), |x| x.to_string()));
+        let op = format!("labels t={} a={} b={} g={}", t, list2(a.iter().map(|r| r.iter()), |x| x.to_string()), list(b.iter(), |x| x.to_string()), list(g.iter(), |x| x.to_string()));
         em.case_valid(op, "labels", |ctx| {
             let ta = Array2::from_shape_fn((n, t), |(i, j)| a[i][j]);
             let tb = Array1::from_vec(b.clone());
@@ -1004,11 +1403,22 @@ fn labels_cases(em: &mut Em, rng: &mut Rng) {
                 }
             }
             let (l, c) = first.unwrap();
+            // the sort linfa itself performs: members of the confusion matrix of column 0 against `g`
+            let col0 = Array1::from_shape_fn(n, |i| a[i][0]);
+            let tg = Array1::from_vec(g.clone());
+            let mut cms: Vec<Vec<usize>> = vec![];
+            for _ in 0..4 {
+                match col0.confusion_matrix(&tg) {
+                    Ok(cm) => cms.push(linfa::metrics::verif_hooks_c05::cm_members(&cm).to_vec()),
+                    Err(_) => cms.push(vec![usize::MAX]),
+                }
+            }
+            ctx.require(cms.iter().all(|x| *x == cms[0]), "hash_order_independent", "labels", || format!("confusion-matrix members differ between calls: {:?}", cms));
             let mut el: Vec<usize> = a.iter().flatten().cloned().collect();
             el.sort_unstable();
             el.dedup();
             ctx.require(l == el, "labels_are_the_set", "labels", || format!("{:?} vs {:?}", l, el));
-            format!("ok labels={} combined={}", list(l.iter(), |x| x.to_string()), list(c.iter(), |x| x.to_string()))
+            format!("ok labels={} combined={} cm={}", list(l.iter(), |x| x.to_string()), list(c.iter(), |x| x.to_string()), list(cms[0].iter(), |x| x.to_string()))
         });
     }
 }
@@ -1104,7 +1514,7 @@ fn rng_clone_cases(em: &mut Em, rng: &mut Rng) {
         let dseed = rng.next() % 100000;
         let init = *rng.pick(&["random", "pp"]);
         let op = format!("#rng_clone seed={} data={} init={}", seed, dseed, init);
-        em.case(op, |ctx| {
+        em.case_valid(op, "rng_clone", |ctx| {
             let mut r = Rng::new(dseed);
             let x = Array2::from_shape_fn((300, 2), |_| (r.unit() - 0.5) * 10.0);
             let ds = DatasetBase::from(x);
@@ -1131,6 +1541,8 @@ pub fn run(em: &mut Em, rng: &mut Rng) {
     }
     let seed = rng.next() % 1_000_000;
     parfor_cases(em, rng);
+    fitsum_cases(em, rng);
+    fitseq_cases(em, rng);
     modal_cases(em, rng);
     impurity_cases(em, rng);
     nb_cases(em, rng);
